@@ -1,6 +1,6 @@
 """Property-specific machinery beyond the protocol pipeline: pure-function vectors (C13, C14), keep-alive
 timers (C17), concurrency rounds (C18), configuration/start-up (C20)."""
-import json, os, subprocess, sys, time
+import shutil, json, os, subprocess, sys, time
 
 def run(kind, prop, tier, seed, harness, workdir, T):
     fn = globals().get("run_" + kind)
@@ -244,6 +244,31 @@ def replay_timer(r, harness):
     print("timer runs are re-executed by the check itself (real time): bin/check C17"); return 2
 
 # ---- C18 (and the schedule half of C02): concurrent rounds searched for a linearization (TraceLin.tla) ----
+def apalache_inductive(model, workdir):
+    """IndInv is inductive (Init => IndInv; IndInv /\\ Next => IndInv') and implies the safety property, for ANY positive buffer sizes;
+    and the same implication fails for the variant (non-vacuity).  Apalache, bounded in time."""
+    import time as _t
+    out = {"ok": True, "steps": {}}
+    od = os.path.join(workdir, "apalache"); os.makedirs(od, exist_ok=True)
+    spec = os.path.join(SPEC, model + ".tla")
+    steps = [("base", ["--cinit=ConstInit", "--init=Init", "--inv=IndInv", "--length=0"], True),
+             ("step", ["--cinit=ConstInit", "--init=IndInv", "--inv=IndInv", "--length=1"], True),
+             ("implies", ["--cinit=ConstInit", "--init=IndInv", "--inv=NoSocketWaitUnderLock", "--length=0"], True),
+             ("variant-refuted", ["--cinit=ConstInitVariant", "--init=IndInv", "--inv=NoSocketWaitUnderLock", "--length=0"], False)]
+    for name, args, expect_ok in steps:
+        t0 = _t.time()
+        try:
+            p = subprocess.run(["timeout", "900", "apalache-mc", "check"] + args + ["--out-dir=" + od, spec], cwd=od, stdout=subprocess.PIPE, stderr=subprocess.STDOUT, text=True)
+            ok = "EXITCODE: OK" in p.stdout
+            bad = "violated" in p.stdout
+        except Exception as e:
+            ok, bad = False, False
+        good = (ok and not bad) if expect_ok else bad
+        out["steps"][name] = {"as_expected": good, "wall_s": round(_t.time() - t0, 1)}
+        if not good: out["ok"] = False
+    shutil.rmtree(od, ignore_errors=True)
+    return out
+
 def run_conc_msg(prop, tier, seed, harness, workdir, T):
     """C01 under concurrency: message storms while receivers part, rename, are kicked (kind 3) and while sessions end under lock
     contention (kind 11); a round that no serial order explains is a delivery that no history of the statement allows"""
